@@ -25,24 +25,66 @@ def model_line(doc, driver=DRIVER):
     return lean.run_driver(driver, [pm_foot.doc_line(doc)])[0]
 
 
-def add_cases(run, sec, count, gen=None, skip_errors=True):
-    """Queue `count` generated documents: protocol line for `driver_s2foot`, real layout canonicalised.
+def reference_line(doc):
+    """The model's pagination of `doc` (= the pagination of the unchanged code) through the most recently built
+    driver that serves `pmfoot` (the check of the running property has just built its own), or None."""
+    from vlib import lean
+    bin_dir = lean.LEAN / '.lake' / 'build' / 'bin'
+    found = [bin_dir / name for name in ('driver_c01', 'driver_c02', 'driver_c03', DRIVER) if (bin_dir / name).exists()]
+    for path in sorted(found, key=lambda f: -f.stat().st_mtime):
+        try:
+            out = lean.run_driver(path.name, [pm_foot.doc_line(doc)])[0]
+        except Exception:  # noqa: BLE001
+            continue
+        if out != 'bad-op':
+            return out
+    return None
 
-    `skip_errors`: an exception of the implementation other than the known `assert root_box` is C02's
+
+def corpus_docs():
+    """(name, document) of every stored footnote document (`corpus/C0x/footnote_*.json` holding a `doc` with a
+    footnote `area`): the inputs of the findings of this grammar, those repaired in /repo included - they stay in
+    the correspondence as regression cases (the model now states the repaired behaviour)."""
+    import json
+    from vlib.paths import CORPUS
+    out = []
+    for prop in ('C01', 'C02', 'C03'):
+        for path in sorted((CORPUS / prop).glob('footnote_*.json')):
+            data = json.loads(path.read_text())
+            if isinstance(data.get('doc'), dict) and 'area' in data['doc']:
+                out.append((f'{prop}/{path.stem}', doc_from_json(data['doc'])))
+    return out
+
+
+def add_cases(run, sec, count, gen=None, skip_errors=True):
+    """Queue the stored footnote documents (corpus first), the deterministic families, then `count` generated
+    documents: protocol line for `driver_s2foot`, real layout canonicalised.
+
+    `skip_errors`: an exception of the implementation other than the known `assert root_box` or a hang is C02's
     business; C01/C03 only count it."""
     docs.quiet()
     gen = gen or pm_foot.gen_doc
-    for _ in range(count):
-        doc = gen(run.rng)
+    fixed = [(name, doc) for name, doc in corpus_docs()]
+    fixed += pm_foot.family_docs(thorough=bool(run.n(0, 1)))
+    for index in range(len(fixed) + count):
+        if index < len(fixed):
+            name, doc = fixed[index]
+        else:
+            name, doc = None, gen(run.rng)
         out = real_line(doc)
-        if skip_errors and out.startswith('err:') and out != 'err:pagination':
+        if skip_errors and out.startswith('err:') and out != 'err:pagination' and not out.startswith('err:Hang'):
             sec.tags['implementation raised (left to C02)'] += 1
-            continue
+            continue        # (a hang is kept: the model terminates - C03Foot.paginateFoot_total - and no page is shown)
         pages = out.count('(page ')
         tags = pm_foot.features(doc) + [f'pages{min(pages, 10)}']
         if '(fa ' in out and out.count('(fa none)') < pages:
             tags.append('footnote-area-shown')
-        sec.add(pm_foot.doc_line(doc), out, meta={'doc': pm_corr.doc_json(doc)},
+        if name is not None:
+            tags.append('corpus' if '/' in name else 'family')
+        meta = {'doc': pm_corr.doc_json(doc)}
+        if name is not None:
+            meta['name'] = name
+        sec.add(pm_foot.doc_line(doc), out, meta=meta,
                 nontrivial=pages >= 2 and pm_foot.n_footnotes(doc) > 0, tags=tags)
 
 
@@ -173,45 +215,136 @@ def progress_violation(doc, impl_out):
     return None
 
 
-def overlap_violation(doc, impl_out):
-    """Geometry: no line of the page (other than the first line placed on it) ends below the top of the margin
-    box of the page's footnote area, i.e. body text and footnote area do not overlap.  Documents with fixed /
-    maximal heights (content overflows its box by design) are not judged."""
-    if impl_out.startswith('err:'):
-        return None
+def unjudged_geometry(doc):
+    """Documents whose boxes overflow by design or by a recorded finding of the block model (not of footnotes)."""
     if any(b['st']['height'] != 'auto' or b['st']['maxH'] != 'inf' for b in pm_foot.all_boxes(doc['root'])):
-        return None
-    if any(b['st']['clone'] and b['st']['pb'] + b['st']['bb'] + b['st']['mb'] < 0
-           for b in pm_foot.all_boxes(doc['root'])):
-        return None     # known finding clone-negative-margin-bottom (C03)
-    from fractions import Fraction
-    pages, _ = parse(impl_out)
-    heights = {}
+        return True
+    return any(b['st']['clone'] and b['st']['mb'] < 0
+               for b in pm_foot.all_boxes(doc['root']))     # known finding clone-negative-margin-bottom (C03)
 
-    def walk(box):
-        if box['kind'] == 'para':
-            heights[box['id']] = box['lineH']
-        for k in box['kids']:
-            walk(k)
-    walk(doc['root'])
+
+def area_decoration(doc, area=None):
+    """Sum of the vertical decorations of a footnote area; without `area`: the least one over the `@footnote`
+    rules of the document (the unnamed one and those of named page types)."""
+    if area is None:
+        return min(area_decoration(doc, a) for a in [doc['area'], *(doc.get('named') or {}).values()])
+    return sum(area[k] for k in ('mt', 'mb', 'pt', 'pb', 'bt', 'bb'))
+
+
+def placed_lines(doc, page):
+    """(paragraph id, line, top, bottom) of the lines of a page, in tree order."""
+    from fractions import Fraction
+    heights = {b['id']: b['lineH'] for b in pm_foot.all_boxes(doc['root']) if b['kind'] == 'para'}
 
     def lines_y(frag, out):
         if frag[0] == 'p':
             for i, y in frag[-1]:
-                out.append((int(frag[1]), int(i), Fraction(y)))
+                out.append((int(frag[1]), int(i), Fraction(y), Fraction(y) + heights[int(frag[1])]))
         else:
             for kid in frag[-1]:
                 lines_y(kid, out)
         return out
+    return lines_y(page[8], [])
+
+
+def unbreakable_violation(doc, impl_out):
+    """C03 "no unbreakable block ends below the bottom edge unless it is the first content placed on the page": the
+    border box of a block with a fixed height that is shown whole on the page (neither continued from the previous
+    page nor on the next one), and is not on the chain of first content, ends above the page bottom and above the
+    footnote area."""
+    from fractions import Fraction
+    if impl_out.startswith('err:') or area_decoration(doc) < 0:
+        return None
+    fixed = {b['id'] for b in pm_foot.all_boxes(doc['root']) if b['st']['height'] != 'auto'}
+    if not fixed:
+        return None
+    pages, _ = parse(impl_out)
+    for number, page in enumerate(pages):
+        area = page[9]
+        limit = doc['pageH']
+        if len(area) >= 7 and area[6]:
+            limit = min(limit, Fraction(area[1]))
+        limit = limit * (1 + Fraction(1, 10**9))
+        other = set()
+        for k in (number - 1, number + 1):
+            if 0 <= k < len(pages):
+                frag_ids(pages[k][8], other)
+
+        def walk(frag, on_first_chain):
+            y, mt, mb, pt, pb, bt, bb, h = (Fraction(x) for x in frag[3:11])
+            bottom = y + mt + bt + pt + h + pb + bb
+            ident = int(frag[1])
+            if ident in fixed and ident not in other and not on_first_chain and bottom > limit:
+                return (f'page {page[1]}: the fixed-height block {ident} is not the first content of the page and '
+                        f'its border box ends at {bottom}, below {limit.limit_denominator(1000)}')
+            if frag[0] == 'b':
+                for i, kid in enumerate(frag[-1]):
+                    bad = walk(kid, on_first_chain and i == 0)
+                    if bad:
+                        return bad
+            return None
+        bad = walk(page[8], True)
+        if bad:
+            return bad
+    return None
+
+
+def overlap_violation(doc, impl_out):
+    """Geometry (C03): no line of the page (other than the first line placed on it) ends below the top of the margin
+    box of the page's footnote area, i.e. body text and footnote area do not overlap; the footnotes of the area are
+    stacked without gap or overlap, the area ends at the page bottom; and no such line ends below the page box.
+    Documents with fixed / maximal heights (content overflows its box by design) are not judged; a footnote area
+    whose decorations sum to a negative length is judged for the area itself only (finding
+    footnote-area-negative-margin-overflow)."""
+    if impl_out.startswith('err:'):
+        return None
+    if unjudged_geometry(doc):
+        what = unbreakable_violation(doc, impl_out)
+        if what is not None:
+            reference = reference_line(doc)
+            if reference is None or reference.startswith('err:') or unbreakable_violation(doc, reference):
+                return None
+            what += ' (not so in the unchanged pagination)'
+        return what
+    from fractions import Fraction
+    pages, _ = parse(impl_out)
+    negative = area_decoration(doc) < 0
+    limit = doc['pageH'] * (1 + Fraction(1, 10**9))
     for page in pages:
         area = page[9]
+        placed = placed_lines(doc, page)
+        if not negative:
+            for pid, i, _y, bottom in placed[1:]:
+                if bottom > limit:
+                    return f'page {page[1]}: line {(pid, i)} ends at {bottom} below the page box ({doc["pageH"]})'
         if len(area) < 7 or not area[6]:
             continue
         top = Fraction(area[1])
-        placed = lines_y(page[8], [])
-        for pid, i, y in placed[1:]:
-            if y + heights[pid] > top:
-                return f'page {page[1]}: line {(pid, i)} ends at {y + heights[pid]} below the footnote top {top}'
+        if not negative:
+            for pid, i, _y, bottom in placed[1:]:
+                if bottom > top:
+                    return f'page {page[1]}: line {(pid, i)} ends at {bottom} below the footnote top {top}'
+        # the area box: margin box from `top` to the page bottom, children stacked from its content top
+        a = pm_foot.area_for(doc, page[4])
+        height, mb, pb, bb = (Fraction(area[k]) for k in (2, 3, 4, 5))
+        if top + a['mt'] + a['bt'] + a['pt'] + height + pb + bb + mb != doc['pageH']:
+            return f'page {page[1]}: the footnote area (top {top}, height {height}) does not end at the page bottom'
+        y = top + a['mt'] + a['bt'] + a['pt']
+        for fid, ky, kh in area[6]:
+            if Fraction(ky) != y:
+                return f'page {page[1]}: footnote {fid} starts at {ky}, the previous one ends at {y}'
+            y += Fraction(kh)
+    # "a fragmented box's own bottom padding/border also fits": judged against the pagination of the unchanged code
+    # (the model) - on the chain of first content, and for a box continued by an empty fragment only, the unchanged
+    # code itself lets a bottom padding overflow
+    for continued_only in (True, False):
+        what = decoration_violation(doc, impl_out, continued_only)
+        if what is not None:
+            reference = reference_line(doc)
+            if (reference is None or reference.startswith('err:') or
+                    decoration_violation(doc, reference, continued_only)):
+                return None
+            return what + ' (the unchanged pagination keeps the bottom paddings/borders of this document inside)'
     return None
 
 
@@ -221,22 +354,26 @@ def overlap_violation(doc, impl_out):
 def corpus_doc(name):
     import json
     from vlib.paths import CORPUS
-    return doc_from_json(json.loads((CORPUS / 'C01' / f'{name}.json').read_text())['doc'])
+    for prop in ('C01', 'C02', 'C03'):
+        path = CORPUS / prop / f'{name}.json'
+        if path.exists():
+            return doc_from_json(json.loads(path.read_text())['doc'])
+    raise FileNotFoundError(name)
 
 
 def replay_policy_block_crash():
-    """footnote-policy: block on the first paragraph of a page: AssertionError in make_page (still failing?)."""
+    """(fixed 67bf2ca) footnote-policy: block on the first paragraph of a page: AssertionError in make_page."""
     return real_line(corpus_doc('footnote_policy_block_crash')) == 'err:pagination'
 
 
 def replay_named_page_lost():
-    """Footnotes of two page names in one footnote area: the second is never rendered."""
+    """(fixed 8db5909) Footnotes of two page names in one footnote area: the second is never rendered."""
     doc = corpus_doc('footnote_named_page_lost')
     return bool(conservation_violation(doc, real_line(doc)))
 
 
 def replay_named_page_overlap():
-    """page_bottom drifts up when a fragmented footnote area with bottom decoration is updated: a line overlaps it."""
+    """(fixed 8db5909) page_bottom drifts when a fragmented footnote area with bottom decoration is updated."""
     doc = corpus_doc('footnote_named_page_overlap')
     return bool(overlap_violation(doc, real_line(doc)))
 
@@ -246,31 +383,93 @@ def replay_page_groups_none():
     return real_line(corpus_doc('footnote_page_groups_none')).startswith('err:AttributeError@page.py:_update_page_groups')
 
 
-FINDING_REPLAYS = {
-    'footnote-policy-block-crash': replay_policy_block_crash,              # C02 (also C03 first_content_accepted)
-    'footnote-named-page-lost': replay_named_page_lost,                    # C01
-    'footnote-named-page-area-overlap': replay_named_page_overlap,         # C03
-    'footnote-page-groups-attributeerror': replay_page_groups_none,        # C02 (variant of page-groups-indexerror)
-}
+def leaf_count(frag):
+    if frag[0] == 'p':
+        return len(frag[-1])
+    return sum(leaf_count(k) for k in frag[-1]) if frag[-1] else 1
 
-KNOWN_SIGNATURES = {
-    # judge text prefix -> finding id (to classify a clause violation met by add_cases' documents)
-    'pagination raised err:pagination': 'footnote-policy-block-crash',
-    'is never rendered': 'footnote-named-page-lost',
+
+def frag_ids(frag, out):
+    out.add(int(frag[1]))
+    if frag[0] == 'b':
+        for kid in frag[-1]:
+            frag_ids(kid, out)
+    return out
+
+
+def decoration_violation(doc, impl_out, continued_only=True):
+    """C03 "a fragmented box's own bottom padding/border also fits", on the footnote grammar: the bottom border
+    edge of a box that is continued on the next page and keeps its bottom padding/border on this one
+    (box-decoration-break: clone) is not below the page box nor below the top of the page's footnote area - unless
+    the box lies on the chain of first content of the page and holds at most one line (it was forced onto the page).
+    (`continued_only=False` also judges the boxes that end on the page: on the chain of first content the unchanged
+    code lets their bottom paddings overflow - nothing is laid out again there - so that is not judged.)"""
+    from fractions import Fraction
+    if impl_out.startswith('err:') or unjudged_geometry(doc) or area_decoration(doc) < 0:
+        return None
+    pages, _ = parse(impl_out)
+    for number, page in enumerate(pages):
+        area = page[9]
+        limit = doc['pageH']
+        if len(area) >= 7 and area[6]:
+            limit = min(limit, Fraction(area[1]))
+        limit = limit * (1 + Fraction(1, 10**9))
+        continued = frag_ids(pages[number + 1][8], set()) if number + 1 < len(pages) else set()
+
+        def walk(frag, on_first_chain):
+            y, mt, mb, pt, pb, bt, bb, h = (Fraction(x) for x in frag[3:11])
+            bottom = y + mt + bt + pt + h + pb + bb
+            forced_only = on_first_chain and leaf_count(frag) <= 1
+            judged = int(frag[1]) in continued or not continued_only
+            if (pb or bb) and judged and bottom > limit and not forced_only:
+                return (f'page {page[1]}: bottom padding/border of box {frag[1]} ends at {bottom} below '
+                        f'{"the footnote area top / " if limit < doc["pageH"] else ""}the page bottom {limit.limit_denominator(1000)}')
+            if frag[0] == 'b':
+                for i, kid in enumerate(frag[-1]):
+                    bad = walk(kid, on_first_chain and i == 0)
+                    if bad:
+                        return bad
+            return None
+        bad = walk(page[8], True)
+        if bad:
+            return bad
+    return None
+
+
+def page_box_overflow(doc, impl_out):
+    """A line that is not the first of its page ends below the page box (whatever the footnote area's style)."""
+    from fractions import Fraction
+    if impl_out.startswith('err:') or unjudged_geometry(doc):
+        return None
+    limit = doc['pageH'] * (1 + Fraction(1, 10**9))
+    pages, _ = parse(impl_out)
+    for page in pages:
+        for pid, i, _y, bottom in placed_lines(doc, page)[1:]:
+            if bottom > limit:
+                return f'page {page[1]}: line {(pid, i)} ends at {bottom} below the page box ({doc["pageH"]})'
+    return None
+
+
+def replay_area_negative_margin():
+    """@footnote{margin-top:-4px}: the emptied area raises page_bottom above the page box, a line overflows it."""
+    doc = corpus_doc('footnote_area_negative_margin')
+    return bool(page_box_overflow(doc, real_line(doc)))
+
+
+FINDING_REPLAYS = {
+    'footnote-page-groups-attributeerror': replay_page_groups_none,        # C02 (variant of page-groups-indexerror)
+    'footnote-area-negative-margin-overflow': replay_area_negative_margin,  # C03
+    # repaired in /repo (`fixed:` lines of known_findings.txt); kept so that the checks that still name them keep
+    # working - the documents are regression cases of add_cases (corpus first)
+    'footnote-policy-block-crash': replay_policy_block_crash,              # C02, fixed 67bf2ca
+    'footnote-named-page-lost': replay_named_page_lost,                    # C01, fixed 8db5909
+    'footnote-named-page-area-overlap': replay_named_page_overlap,         # C03, fixed 8db5909
 }
 
 
 def classify(doc, impl_out):
-    """Finding id explaining a clause violation of `impl_out` on `doc`, or None (a new violation)."""
-    names = {b['st']['page'] for b in pm_foot.all_boxes(doc['root'])}
-    has_block = any(c['policy'] == 'block' for b in pm_foot.all_boxes(doc['root']) for c in b.get('calls', []))
-    if impl_out == 'err:pagination' and has_block:
-        return 'footnote-policy-block-crash'
+    """Finding id explaining a clause violation of `impl_out` on `doc`, or None (a new violation).  Only findings
+    that are still open: the repaired ones (policy-block crash, named-page loss / overlap) explain nothing."""
     if impl_out.startswith('err:AttributeError@page.py:_update_page_groups'):
         return 'footnote-page-groups-attributeerror'
-    what = conservation_violation(doc, impl_out)
-    if what and 'never rendered' in what and len(names - {''}) >= 1 and len(names) >= 2:
-        return 'footnote-named-page-lost'
-    if overlap_violation(doc, impl_out) and len(names) >= 2:
-        return 'footnote-named-page-area-overlap'
     return None
